@@ -131,6 +131,13 @@ func (w *World) loop() {
 			w.logf("quiescent")
 			return
 		}
+		if w.pendingJump > 0 {
+			d := w.pendingJump
+			w.pendingJump = 0
+			w.logf("jump %v (scripted stall)", d)
+			time.Sleep(d)
+			continue
+		}
 		idx := w.st.Draw(len(pend), "pick")
 		p := pend[idx]
 		if w.sched.Log.Keep {
@@ -171,6 +178,13 @@ func (w *World) deliver(p *core.Pending) {
 		w.stMu.Unlock()
 		w.logf("%s -> %d%s", p.Key, d.v, d.code)
 		w.sched.Release(p, d)
+		if d.crash != 0 {
+			// process death right before / right after the server executed
+			// this group: the statement was (not) executed, then every
+			// connection drops and all in-memory state is lost
+			synctest.Wait()
+			w.crashRestart()
+		}
 	case "http":
 		ev := p.Data.(*httpEvent)
 		res := w.serveHTTP(ev)
@@ -238,7 +252,17 @@ func (w *World) serveHTTP(ev *httpEvent) httpResult {
 	}
 	n := w.srcs[src].node
 	kind := hfNone
-	if w.faultsOn() && w.st.Chance(f.HTTPPerMille, 1000, "http-fault") {
+	hk := w.httpSeen
+	w.httpSeen++
+	w.httpSizes = append(w.httpSizes, len(ev.reqs))
+	sf := w.scripted("http", hk)
+	if sf != nil {
+		for k2, nm := range hfNames {
+			if nm == sf.Kind {
+				kind = k2
+			}
+		}
+	} else if w.faultsOn() && w.st.Chance(f.HTTPPerMille, 1000, "http-fault") {
 		var enabled []int
 		for k := 1; k < hfN; k++ {
 			if f.HTTPKinds&(1<<k) != 0 {
@@ -264,11 +288,17 @@ func (w *World) serveHTTP(ev *httpEvent) httpResult {
 	case hfStatus:
 		codes := []int{500, 502, 429, 404}
 		c := codes[w.st.Draw(len(codes), "http-status")]
+		if sf != nil {
+			c = codes[sf.Elem%len(codes)]
+		}
 		body := []byte("upstream error \x00\x01 <html>")
 		return httpResult{status: c, body: body}
 	case hfStall:
 		// never answered: the client's own timeout will fire as simulated time passes
 		w.stat("probe_http_stall", 1)
+		if sf != nil {
+			w.pendingJump = 11 * time.Second
+		}
 		return httpResult{err: errStall}
 	}
 	var between func(i int)
@@ -291,10 +321,16 @@ func (w *World) serveHTTP(ev *httpEvent) httpResult {
 	switch kind {
 	case hfRPCError:
 		i := w.st.Draw(len(replies), "rpc-error-at")
+		if sf != nil {
+			i = sf.Elem % len(replies)
+		}
 		replies[i].Result = nil
 		replies[i].Error = &node.RPCError{Code: -32000, Message: "simulated upstream failure"}
 	case hfNullResult:
 		i := w.st.Draw(len(replies), "null-at")
+		if sf != nil {
+			i = sf.Elem % len(replies)
+		}
 		replies[i].Result = json.RawMessage("null")
 		replies[i].Error = nil
 	}
@@ -307,6 +343,9 @@ func (w *World) serveHTTP(ev *httpEvent) httpResult {
 	switch kind {
 	case hfTruncated:
 		cut := w.st.Draw(len(body), "truncate-at")
+		if sf != nil {
+			cut = (sf.Elem * 37) % len(body)
+		}
 		body = body[:cut]
 	case hfNonJSON:
 		body = []byte("<html><body>502 Bad Gateway</body></html>")
@@ -431,7 +470,41 @@ func (w *World) decidePG(ev *fakepg.Event) pgDecision {
 	d := pgDecision{v: fakepg.Exec}
 	if ownerGen(ev.Owner) >= 0 && ownerGen(ev.Owner) != w.gen {
 		d.v = fakepg.DropBefore
-	} else if w.faultsOn() && w.st.Chance(f.PGPerMille, 1000, "pg-fault") {
+		return d
+	}
+	k := w.pgSeen
+	w.pgSeen++
+	w.pgClasses = append(w.pgClasses, pgClassShort(ev.Class))
+	if sf := w.scripted("pg", k); sf != nil {
+		w.stat("fault_total", 1)
+		w.stat("fault_scripted_pg_"+sf.Kind, 1)
+		w.stat("fault_pg_at:"+pgClassShort(ev.Class), 1)
+		switch sf.Kind {
+		case "error":
+			d.v, d.code = fakepg.ErrReply, "57P01"
+		case "drop-before":
+			d.v = fakepg.DropBefore
+		case "drop-after":
+			d.v = fakepg.DropAfter
+			if strings.Contains(ev.Class, "commit") {
+				w.stat("probe_lost_commit_ack", 1)
+				if ps := w.pairByOwner(ev.Owner); ps != nil {
+					ps.callLostAck = true
+				}
+			}
+		case "crash-before":
+			d.crash = 1
+			d.v = fakepg.DropBefore
+		case "crash-after":
+			d.crash = 2
+			d.v = fakepg.DropAfter
+			if ps := w.pairByOwner(ev.Owner); ps != nil {
+				ps.callLostAck = true
+			}
+		}
+		return d
+	}
+	if w.faultsOn() && w.st.Chance(f.PGPerMille, 1000, "pg-fault") {
 		kinds := 2
 		if f.LostAck {
 			kinds = 3
@@ -458,4 +531,29 @@ func (w *World) decidePG(ev *fakepg.Event) pgDecision {
 		w.stat("fault_pg_at:"+pgClassShort(ev.Class), 1)
 	}
 	return d
+}
+
+func (w *World) scripted(seam string, ordinal int) *ScriptedFault {
+	for i := range w.plan.Script {
+		sf := &w.plan.Script[i]
+		if sf.Seam == seam && sf.Ordinal == ordinal {
+			return sf
+		}
+	}
+	return nil
+}
+
+// applyScriptChain runs scripted chain events due after the n-th success.
+func (w *World) applyScriptChain() {
+	for _, sc := range w.plan.ScriptChain {
+		if sc.AfterOK != w.okOutcomes {
+			continue
+		}
+		switch sc.Action {
+		case "grow":
+			w.chainGrow(sc.Src, sc.N)
+		case "reorg":
+			w.chainReorg(sc.Src, sc.Depth, sc.NewLen)
+		}
+	}
 }
